@@ -192,9 +192,22 @@ PureEvent(e) ==
           \A act \in ActionsOf(RuleBody(mem[a][i])) :
              ActionCode(act) \in DOMAIN Acts => Acts[ActionCode(act)].kind # "addfact"
 ReadOnlyOp(e) == e.op \in {"SearchFacts", "SearchRules", "ListRules", "GetFact", "GetRule", "GetParents", "StateSize"} \/ PureEvent(e)
+\* The same for any operation when the write that failed was the removal of an item that had expired
+\* before the operation began (a purge the operation came across, not a change it was asked for) ...
+PurgeFault(e) ==
+  /\ e.fault_kind = "remove" /\ e.fault_loc \in DOMAIN mem
+  /\ e.fault_key \in ExpiredIds(mem[e.fault_loc], e.now)
+\* ... and for an event whose failed write was made by one of its actions (Env.AddFact): the failure is
+\* reported where actions report, on the action's node
+ActionFault(e) ==
+  /\ e.op \in {"ProcessEvent", "Tick"} /\ e.fault_kind = "add"
+  /\ \E i \in DOMAIN e.res.tree : \E j \in DOMAIN e.res.tree[i].execs :
+        LET x == e.res.tree[i].execs[j]
+        IN ~x.ok /\ x.code \in DOMAIN Acts /\ Acts[x.code].kind = "addfact"
+FaultExcused(e) == ReadOnlyOp(e) \/ PurgeFault(e) \/ ActionFault(e)
 AcceptFault(e) ==
   /\ e.fault
-  /\ e.res.c # "ok" \/ ReadOnlyOp(e)
+  /\ e.res.c # "ok" \/ FaultExcused(e)
   /\ UNCHANGED <<mem, ro, impl>> /\ l' = l + 1
 
 Accept(e) ==
@@ -245,7 +258,7 @@ AcceptDev(e) ==
 
 \* a line nothing explains: report it and go on with the next trace
 Reject(e) ==
-  /\ IF e.fault THEN e.res.c = "ok" /\ ~ReadOnlyOp(e)
+  /\ IF e.fault THEN e.res.c = "ok" /\ ~FaultExcused(e)
      ELSE IF IsSysLevel(e) THEN SysOutcomes(e) = {}
      ELSE \/ Explained(e) = {} /\ ExplainedDev(e) = {}
           \/ Explained(e) # {} /\ (\A o \in Explained(e) : ~CronOnly(e, o.mem)) /\ ~StaleOk(e)
